@@ -149,8 +149,25 @@ def run(rep, tier, seed, replay):
             if not diag and not rand and not pm:
                 rep.violation("tables-unknown", "tables_match_model fails: " + (c2.stderr or c2.stdout)[-800:],
                               {"property": "C05", "broken_tie": "tables_match_model"}, False)
-    obligations = len(thms) + 1
-    discharged = (len(thms) if ok else 0) + (1 if tables_ok else 0)
+    # dispatch tie: the type the library attaches to a generated fragment (Type::type_check choosing the
+    # rule of each constructor, and the sugar-cast rules t:/l:/u:) equals the model's type_of
+    import satrun
+    satrun.build_driver()
+    nfr = 3000 if tier == "thorough" else 900
+    pd = vlib.sh("set -o pipefail; %s frags %d %d 2>/dev/null | %s --types-only" % (hbin, seed, nfr, satrun.DRIVER), timeout=1200)
+    msum = re.search(r"SUMMARY05 types=(\d+) bad=(\d+)", pd.stdout)
+    if pd.returncode != 0 or not msum or "ENDFRAGS" not in pd.stdout:
+        raise RuntimeError("type dispatch run failed: " + (pd.stdout + pd.stderr)[-1500:])
+    dispatch_ok = int(msum.group(2)) == 0
+    for line in [l for l in pd.stdout.splitlines() if l.startswith("BAD C05")][:5]:
+        kv = dict(re.findall(r"(\w+)=(\S+)", line))
+        ms = line.split(" ms=", 1)[1] if " ms=" in line else ""
+        rep.violation("dispatch:%s" % ms.split(" ")[0], "the library types a fragment differently from the specification: library %s, model %s on %s (%s)"
+                      % (kv.get("library_type"), kv.get("model_type"), ms, kv.get("ctx")),
+                      {"property": "C05", "engine": "frags --types-only", "seed": seed, "n": nfr, "ctx": kv.get("ctx"), "ms": ms,
+                       "library_type": kv.get("library_type"), "model_type": kv.get("model_type")}, True)
+    obligations = len(thms) + 2
+    discharged = (len(thms) if ok else 0) + (1 if tables_ok else 0) + (1 if dispatch_ok else 0)
     rep.coverage.update({
         "obligations": obligations, "discharged": discharged,
         "checker_cmd": "make -C coq (coqc 8.16.1) ; coqc Properties/C05.v ; verif-harness tables | coqc Tables/TypeTables.v Tables/TypeTablesCheck.v",
@@ -163,6 +180,7 @@ def run(rep, tier, seed, replay):
                 "and_or 80^3; threshold lists up to length 3 (corr) / 4 with every k (mall)) + 2000 random Type::threshold lists up to length 20",
         "samples": samples(p.stdout),
         "evaluations": rows, "distinct_nontrivial": rows,
+        "dispatch_fragments_compared": int(msum.group(1)), "dispatch_differences": int(msum.group(2)),
     })
     rep.assumptions = ["Spec.v transcribes the published Miniscript type tables (DESIGN Appendix B)",
-                       "Type::type_check dispatch to the rule of its constructor is tied by the AST engines (C04/C06 runs), not here"]
+                       "Type::type_check's dispatch to the rule of its constructor is tied on generated fragments (sampled), the rules themselves on their whole domains (complete)"]
